@@ -18,7 +18,7 @@ import tempfile
 
 ID = 'C17'
 TITLE = 'An archive is unpacked and marked installed only if its SHA-256 matches'
-GEN = []
+GEN = ['ProbStatus']
 RULE = ('each case = a history of 1..3 install invocations on one install directory (60% single invocations), each with its own '
         'force / no_cleaning flags and server script, later invocations starting from whatever the earlier ones left on disk '
         '(archive, marker, side files); first invocation from: prior local state (no archive / partial prefix / corrupt / oversized / complete good archive; marker or '
